@@ -19,7 +19,7 @@ from mc import core
 ID = "C17"
 LEVEL = "model_checking"
 RULE = ("parameter sets: for each of the 8 operations every boolean flag setting x every optional parameter present/absent "
-        "(49 sets); tables: every table of 1-3 rows over trial_type in {a,b,n/a} x code in {1,2} x response_time in "
+        "(55 sets); tables: every table of 1-3 rows over trial_type in {a,b,n/a} x code in {1,2} x response_time in "
         "{0.3,n/a} with fixed increasing onsets and durations in {0.5,n/a} (+ for merge_consecutive every run pattern of 4-5 rows over {a,b}); operation lists: all single operations and all "
         "ordered pairs (thorough: triples over a 12-set subset); dispatcher histories: every sequence of <= 3 tables from 4 (one with an extra column) "
         "through one dispatcher.  state = (operation list, table); transition = one run_operations call; non-trivial = the "
@@ -125,6 +125,8 @@ def ref_apply(op, cols, rows):
         if any(k not in cols for k in m) and not p["ignore_missing"]:
             raise Missing()
         new = [m.get(c, c) for c in cols]
+        if len(set(new)) != len(new):
+            raise Missing()         # two columns of one name: not a table the reference (or the statement) describes
         return new, [{m.get(c, c): r[c] for c in cols} for r in rows]
     if name == "reorder_columns":
         order = p["column_order"]
@@ -286,6 +288,9 @@ def parameter_sets():
         out.append(op("remove_columns", column_names=["code", "nope"], ignore_missing=ig))
         out.append(op("rename_columns", column_mapping={"code": "kode"}, ignore_missing=ig))
         out.append(op("rename_columns", column_mapping={"code": "kode", "nope": "x"}, ignore_missing=ig))
+        # a new name that is also a key of the mapping: the renaming is simultaneous (a swap, a chain)
+        out.append(op("rename_columns", column_mapping={"code": "response_time", "response_time": "code"}, ignore_missing=ig))
+        out.append(op("rename_columns", column_mapping={"trial_type": "code", "code": "kind"}, ignore_missing=ig))
         for ko in B:
             out.append(op("reorder_columns", column_order=["trial_type", "onset"], ignore_missing=ig, keep_others=ko))
             out.append(op("reorder_columns", column_order=["code", "nope", "onset"], ignore_missing=ig, keep_others=ko))
@@ -304,6 +309,9 @@ def parameter_sets():
         # wins is never asked) must not disturb the entries listed after it
         out.append(op("remap_columns", source_columns=["trial_type"], destination_columns=["kind"],
                       map_list=[["c", "x1"], ["c", "x2"], ["a", "first"], ["b", "second"]], ignore_missing=ig))
+        # two source columns whose values concatenate to the same text for different rows ('a' + '12' and 'a1' + '2')
+        out.append(op("remap_columns", source_columns=["trial_type", "code"], destination_columns=["kind"],
+                      map_list=[["a", 12, "first"], ["a1", 2, "second"], ["b", 1, "third"]], ignore_missing=ig))
     for sd in B:
         for ig in B:
             out.append(op("merge_consecutive", column_name="trial_type", event_code="a", set_durations=sd,
@@ -392,10 +400,18 @@ def run_list(env, rec, ops, cols, rows, label):
     except Missing:
         expected = None
         may_raise = True
-    if any(o["operation"] == "remap_columns" and o["parameters"].get("integer_sources") for o in ops[:-1]):
+    if any(o["operation"] == "remap_columns" and (o["parameters"].get("integer_sources") or
+                                                  "code" in o["parameters"]["source_columns"]) for o in ops[:-1]):
         # remap_columns with integer_sources hands its source columns on as text; what later operations that address
         # those columns by numeric value do is a question of cell *kind* the statement leaves open: purity only
         expected, may_raise = None, True
+    for k, o in enumerate(ops):
+        # integer_sources truncates whatever the named column holds; after a rename has moved a non-integer column under
+        # that name the reference (which keys on the cell as read) no longer applies: purity only
+        if o["operation"] == "remap_columns" and o["parameters"].get("integer_sources") and any(
+                b["operation"] == "rename_columns" and set(b["parameters"]["column_mapping"].values()) &
+                set(o["parameters"]["integer_sources"]) for b in ops[:k]):
+            expected, may_raise = None, True
     try:
         disp = Dispatcher(copy.deepcopy(ops_before), data_root=None, backup_name=None)
         # frame path as well: the input frame must not change
@@ -476,6 +492,10 @@ def worker_single(rec, shard, nshards, scratch, max_rows, thorough, seed):
     for code in (("1", "n/a"), ("n/a", "2"), ("n/a", "n/a"), ("2", "1", "n/a")):
         rows = [{"onset": str(ONSETS[i]), "duration": "0.5", "trial_type": "ab"[i % 2], "code": c, "response_time": "0.3"}
                 for i, c in enumerate(code)]
+        na_tabs.append((tabs[0][0], rows))
+    for tt, code in ((("a", "a1"), ("12", "2")), (("a1", "a"), ("2", "12")), (("a", "a1", "b"), ("12", "12", "1"))):
+        rows = [{"onset": str(ONSETS[i]), "duration": "0.5", "trial_type": tt[i], "code": code[i], "response_time": "0.3"}
+                for i in range(len(tt))]
         na_tabs.append((tabs[0][0], rows))
     base2 = len(tabs)
     tabs = tabs + na_tabs
